@@ -151,4 +151,30 @@ CHECKS = {
                      "classes that cannot be default-constructed and parsed without external data are skipped (counted by a probe)"],
         distinct_by_hash=True,
     ),
+    "C16": dict(
+        level="exploration",
+        parts=[dict(harness="chk_C16", variant="seq", src="checks/chk_C16.cpp",
+                    runs=dict(quick=640, thorough=60000), wall_cap=dict(quick=120, thorough=2400)),
+               dict(harness="chk_C16", variant="omp", src="checks/chk_C16.cpp",
+                    runs=dict(quick=400, thorough=60000), wall_cap=dict(quick=70, thorough=1500))],
+        rule=("seq part: one case = generated scanner (detectors, rings), random-placement switch, rand() mode, initial cache switch, "
+              "down-sampling zoom, start time, then 2..24 operations on ONE SingleScatterSimulation object: new activity image, new "
+              "attenuation image (drops the scatter-point image), explicit sub-sampled scatter-point image, new template (other detector "
+              "count / tangential range / segments) with new output, new energy window, cache switch, clock jump, set_up, "
+              "process_data; after every process_data a fresh object configured for the current settings and set up at the same "
+              "simulated instant must give the same output bitwise; once per case cache on/off, exchange of the two detectors for every "
+              "bin, linearity (scale, sum), zero activity, non-negativity.  omp part: process_data with 2..16 simulated threads under a "
+              "seeded schedule vs one thread, bitwise.  Non-trivial = at least one process_data after >= 1 setter (seq) or >= 1 context "
+              "switch (omp); distinct = (operation history, schedule hash)."),
+        components=dict(real=REAL_COMMON + ["SingleScatterSimulation / ScatterSimulation (setters, set_up, process_data, caches, scatter-point sampling, "
+                                            "detection model), zoom_image for the derived scatter-point image, ProjDataInMemory"],
+                        stub=STUB_CLOCK + ["rand()/srand(): simulator modes in front of glibc (the sequence after srand(t) is a function of t)",
+                                           "omp part: libgomp and libtsan replaced by simgomp/simtsan"]),
+        assumptions=["'freshly configured' = a new object given the current template, energy window, activity, attenuation image and (if one was "
+                     "given after the last attenuation image) scatter-point image, set up at the simulated instant at which the object under "
+                     "test sampled its scatter points", "random-placement switch and attenuation threshold are per-case constants (the property "
+                     "lists activity, attenuation, scatter-point image, template and energy settings as the changes)",
+                     "A<->B exchange and linearity of a sum are compared to 2e-5 relative (float arithmetic in another order), everything else bitwise or 1e-6",
+                     "small geometries (8..24 detectors, 2..3 rings, <= 9x9x5 voxels); inputs sampled"],
+    ),
 }
